@@ -13,6 +13,7 @@ import (
 	"pgregory.net/rapid"
 	"verifharness/internal/ev"
 	"verifharness/internal/gen"
+	"verifharness/internal/kf"
 	"verifharness/internal/rt"
 )
 
@@ -470,6 +471,16 @@ func c15Machine(t *rapid.T, rec *ev.Rec, profile string) {
 				trace.WriteString(") ")
 			})
 		case 5: // write: one persist cycle
+			if no := len(cur.Offs); len(liveOf(curV.m)) == 0 && no > 0 && (no >= 7 || bits.TrailingZeros(^uint(cur.Clock)) >= no) {
+				// known finding: a write that merges every chunk of the chain while
+				// no live entry exists writes nothing and keeps the old chain
+				if e, ok := kf.Known("C15", "flatten-to-empty"); ok {
+					rec.Excluded("flatten-to-empty")
+					rec.Known(e.What)
+					trace.WriteString("w- ")
+					continue
+				}
+			}
 			p = try(func() {
 				before := len(cur.Offs)
 				clock := cur.Clock
